@@ -27,7 +27,7 @@ def make_fasta(rng, n, maxlen, width, eol="\n", descriptions=True, final_newline
     rng.shuffle(order)          # file order differs from the sorted order of the names
     for i in order:
         name = "c%d%s" % (i, rng.choice(["", "x", "_alt", ".1"]))
-        desc = rng.choice([" desc", " len=5 x", "\tlength=13", "\tx y", "  two spaces"]) if descriptions and rng.random() < 0.4 else ""
+        desc = rng.choice([" desc", " len=5 x", "\tlength=13", "\tx y", "  two spaces", " substitution A>G at 7", " gene->protein >x", " a>"]) if descriptions and rng.random() < 0.4 else ""
         L = rng.choice([1, width - 1, width, width + 1, 2 * width, 2 * width + 1, rng.randint(1, maxlen)])
         L = max(1, min(L, maxlen))
         s = "".join(rng.choice("ACGTNacgt") for _ in range(L))
@@ -63,8 +63,13 @@ def run(ctx):
         tag = "crlf" if c["eol"] != "\n" else ("nonl" if not c["final_newline"] else "lf")
         src = c["index"]
         if src == "harness":
+            fai_rows = list(index)
+            if c["seed"] % 3 == 0:
+                # an index keyed by name need not list the records in file order (a sorted .fai, an index in karyotype order)
+                fai_rows = sorted(fai_rows) if c["seed"] % 2 else fai_rows[::-1]
+                ctx.count("supplied_index_in_another_order_than_the_file")
             with open(fai, "w") as f:
-                for row in index:
+                for row in fai_rows:
                     f.write("\t".join(map(str, row)) + "\n")
             idx = IndexedFasta(path)
         else:
@@ -94,7 +99,7 @@ def run(ctx):
         # fetch every contig first and keep the results, compare afterwards (results must be independent objects)
         held = {k: v for k, v in idx.items()}
         held2 = {name: idx[name] for name, _ in reversed(recs)}
-        ok = list(held) == [nm for nm, _ in recs] and all(held[nm].to_string() == sq and held2[nm].to_string() == sq for nm, sq in recs)
+        ok = sorted(held) == sorted(nm for nm, _ in recs) and (list(held) == [nm for nm, _ in recs] or src == "harness") and all(held[nm].to_string() == sq and held2[nm].to_string() == sq for nm, sq in recs)
         ctx.check("whole-contig", ok, "whole-contig-fetch:results-kept-while-fetching-others", "dict(fasta.items()) gave %r, expected %r" % ({k: v.to_string() for k, v in held.items()}, dict(recs)), dict(c, text=text), (text, src, "items") if len(recs) >= 2 else None)
         for name, s in recs:
             got = idx[name].to_string()
@@ -153,6 +158,19 @@ def run(ctx):
                     first[0:1] = "N" if sq[0].upper() != "N" else "A"        # the caller edits what it fetched
                 again = seq[nm].to_string()
                 ctx.check("whole-contig", again.upper() == sq.upper(), "whole-contig-fetch:refetch-after-the-caller-edited-the-first-result", "second fetch of %s gave %r, the file has %r" % (nm, again[:12], sq[:12]), dict(c, text=text, name=nm), (text, nm, "refetch"))
+            # intervals handed over as a plain table (names as text), contigs the genome ignores included: one row back per interval
+            qs_ = r.sample(all_iv, min(8, len(all_iv)))
+            try:
+                res_ = [t.upper() for t in text_rows(seq.extract_intervals(Interval([q[0] for q in qs_], [q[1] for q in qs_], [q[2] for q in qs_])))]
+            except Exception as e:
+                from bnpmon.ctx import originates_in_library
+                if not originates_in_library(e):
+                    raise
+                res_ = None
+                ctx.observe("extract_intervals(plain table) raised %s%s" % (type(e).__name__, " (a contig the genome ignores is among them)" if any("_" in q[0] for q in qs_) else ""))
+            if res_ is not None:
+                ctx.count("genome_route_plain_table")
+                ctx.check("genome-route", res_ == [d[n][a:b].upper() for n, a, b in qs_], "interval-fetch:genome-route:plain-interval-table", "read_sequence().extract_intervals(plain table) gave %r" % res_[:3], dict(c, text=text, queries=qs_, got=res_), (text, tuple(qs_), "plain"))
             if not kept:
                 return
             gorder = list(g.get_genome_context().chrom_sizes)
